@@ -229,8 +229,11 @@ impl BitOps {
     pub fn zero_high_bits32(&self, source: u32, index: u32) -> u32 {
         #[cfg(target_arch = "x86_64")]
         if self.config.enable_bmi2 && self.features.has_bmi2 {
-            unsafe {
-                _bzhi_u32(source, index)
+            // BZHI only looks at the low 8 bits of the index: 256 would clear everything
+            if index >= 32 {
+                source
+            } else {
+                unsafe { _bzhi_u32(source, index) }
             }
         } else if self.config.software_fallback {
             if index >= 32 {
@@ -258,8 +261,11 @@ impl BitOps {
     pub fn zero_high_bits64(&self, source: u64, index: u32) -> u64 {
         #[cfg(target_arch = "x86_64")]
         if self.config.enable_bmi2 && self.features.has_bmi2 {
-            unsafe {
-                _bzhi_u64(source, index)
+            // BZHI only looks at the low 8 bits of the index: 256 would clear everything
+            if index >= 64 {
+                source
+            } else {
+                unsafe { _bzhi_u64(source, index) }
             }
         } else if self.config.software_fallback {
             if index >= 64 {
